@@ -285,9 +285,12 @@ def gen_moveaway(chk, B, E):
     streams = [b'ab' + B + b'xyz' + E + b'cd\n', b'a' + B + b'x' + E + b'm' + B + b'yy' + E + b'z\n',
                b'0123456789' * 3 + B + b'Q' * 30 + E + b'tail\n']
     jobs = []
-    for s in streams:
-        for cfgs, p, wch, rch in ((CF_DRAIN, 0, 'stdout', 'stdout'), (CF_DRAIN, 2, 'stderr', 'stderr'),
-                                  (CF_PLAIN, 0, 'stdout', 'stdout'), (CF_DRAIN_EV, 1, 'stdout', 'stdout')):
+    for si, s in enumerate(streams):
+        variants = ((CF_DRAIN, 0, 'stdout', 'stdout'), (CF_DRAIN, 2, 'stderr', 'stderr'),
+                    (CF_PLAIN, 0, 'stdout', 'stdout'), (CF_DRAIN_EV, 1, 'stdout', 'stdout'))
+        if si == 2 and chk.tier == 'quick':
+            variants = variants[:1]
+        for cfgs, p, wch, rch in variants:
             for c in range(1, len(s)):
                 ops = [('spawn', p, 'ok'), ('write', p, wch, s[:c]), ('read', p, rch, 3000), ('moveaway', p), ('reopen',),
                        ('write', p, wch, s[c:])]
